@@ -239,16 +239,72 @@ def _events(F, b, defs, kind, key):
     return events(b, defs, kind, key)
 
 
+def _delegates(F, b):
+    """Lowerer helpers to which `b` hands its two sub-expression parameters E0 and E1 unchanged and in the same order (the work of
+    an operator lowering moved into a shared helper).  Returns (list of helper bodies, list of helpers that receive them swapped)."""
+    same, swapped = [], []
+    k0, k1 = select_param(b, "E0"), select_param(b, "E1")
+    if k0 is None or k1 is None:
+        return same, swapped
+    defs = mir.Defs(b)
+    for bi, t in mir.calls(b):
+        c = mir.callee(t) or ""
+        if not c.startswith("mir::lower::") or c == b.path:
+            continue
+        hb = F.body(c)
+        if hb is None or not hb.mir:
+            continue
+        h0, h1 = select_param(hb, "E0"), select_param(hb, "E1")
+        if h0 is None or h1 is None:
+            continue
+        def argkey(hk):
+            i = int(hk[3:].split(".")[0]) - 1
+            if i >= len(t["args"]) or not mir.is_place_op(t["args"][i]):
+                return None
+            place = list(t["args"][i][1])
+            if hk.endswith(".0"):
+                place = place + [["f", 0, "0"]]  # a `(expr, ty)` tuple parameter: the expression is its first component
+            return mir.origin_key(b, defs, place)
+        a0, a1 = argkey(h0), argkey(h1)
+        if a0 is None or a1 is None:
+            continue
+        if a0.startswith(k0) and a1.startswith(k1):
+            same.append(hb)
+        elif a0.startswith(k1) and a1.startswith(k0):
+            swapped.append(hb)
+    return same, swapped
+
+
 def rule_o1(F):
     r = RuleResult("C08.O1", "visit order in the MIR lowerer: left before right, receiver before arguments, condition before branches, loops re-enter at the condition", floor=24)
-    for fn, chains in CHAINS.items():
-        b = F.body(fn)
+    work = [(fn, chains, F.body(fn), fn) for fn, chains in CHAINS.items()]
+    for fn, chains, b, label_fn in work:
         if b is None or not b.mir:
             r.missing(fn)
             continue
         defs = mir.Defs(b)
         pk = param_keys(b)
         dom = mir.dominators(b)
+        # an operator lowering that only forwards both operands to a shared helper is checked in the helper
+        if all(x[1] in ("E0", "E1") for pair in chains for x in pair) and label_fn == fn:
+            k0_, k1_ = select_param(b, "E0"), select_param(b, "E1")
+            own = (events(b, defs, "expr", k0_) if k0_ else []) and (events(b, defs, "expr", k1_) if k1_ else [])
+            if not own:
+                same, swapped = _delegates(F, b)
+                for hb in swapped:
+                    r.bad(fn, "%s: operands handed to %s in reverse order" % (hir.last(fn), hir.last(hb.path)), relfile(b.file), b.line,
+                          "the two operands are passed to the shared helper %s swapped: the right operand is evaluated first" % hir.last(hb.path))
+                # only helpers that lower the operands themselves carry the obligation (dispatchers that forward once more - to
+                # desugared_binop / shortcircuit_binop - have their own entries)
+                def lowers(hb_):
+                    hd = mir.Defs(hb_)
+                    h0_, h1_ = select_param(hb_, "E0"), select_param(hb_, "E1")
+                    return bool(h0_ and h1_ and events(hb_, hd, "expr", h0_) and events(hb_, hd, "expr", h1_))
+                doing = [hb for hb in same if lowers(hb)]
+                if doing:
+                    for hb in doing:
+                        work.append((hb.path, chains, hb, fn + " via " + hir.last(hb.path)))
+                    continue
         for (e1, e2) in chains:
             k1 = select_param(b, e1[1]) if e1[1] else None
             k2 = select_param(b, e2[1]) if e2[1] else None
@@ -257,7 +313,7 @@ def rule_o1(F):
                 continue
             ev1 = _events(F, b, defs, e1[0], k1)
             ev2 = _events(F, b, defs, e2[0], k2)
-            key = "%s: %s(%s) before %s(%s)" % (hir.last(fn), e1[0], e1[1] or "", e2[0], e2[1] or "")
+            key = "%s: %s(%s) before %s(%s)" % (hir.last(label_fn.split(" via ")[0]) + (" via " + label_fn.split(" via ")[1] if " via " in label_fn else ""), e1[0], e1[1] or "", e2[0], e2[1] or "")
             r.inst(key, {"fn": hir.last(fn), "first": [e1[0], e1[1], ev1], "then": [e2[0], e2[1], ev2]})
             if not ev1 or not ev2:
                 r.bad(fn, key, relfile(b.file), b.line, "event missing: %s found %d times, %s found %d times" % (e1, len(ev1), e2, len(ev2)))
@@ -303,12 +359,16 @@ def rule_o1(F):
         r.inst("while back edge", {"ok": ok})
         if not ok:
             r.bad(b.path, "while back edge", relfile(b.file), b.line, "the jump at the end of the loop body does not go back to the block in which the condition is evaluated")
-    # Value::BinOp wiring in binop
-    b = F.body(L + "binop")
-    if b is not None:
+    # Value::BinOp wiring in binop (or in the helper(s) it forwards both operands to)
+    b0 = F.body(L + "binop")
+    wiring_bodies = []
+    if b0 is not None:
+        same_, _sw = _delegates(F, b0)
+        wiring_bodies = [b0] + same_
+    n = 0
+    for b in wiring_bodies:
         defs = mir.Defs(b)
         pk = param_keys(b)
-        n = 0
         for bi, blk in enumerate(b.blocks):
             for s in blk["stmts"]:
                 if s["k"] == "assign" and s["rv"]["k"] == "agg" and s["rv"].get("adt") == "mir::Value" and s["rv"].get("variant") == "BinOp":
@@ -323,8 +383,8 @@ def rule_o1(F):
                     r.inst("Value::BinOp #%d" % n, {"left_depends_on": sorted(dl), "right_depends_on": sorted(dr)})
                     if not (okl and okr):
                         r.bad(b.path, "Value::BinOp wiring #%d" % n, relfile(b.file), s["line"], "Value::BinOp { left <- %s, right <- %s }: operands are swapped or mixed" % (sorted(dl), sorted(dr)))
-        if n < 3:
-            r.missing("3 Value::BinOp constructions in binop (found %d)" % n)
+    if b0 is not None and n < 1:
+        r.missing("Value::BinOp constructions in binop or its operand helper (found %d)" % n)
     return r
 
 
